@@ -88,7 +88,7 @@ def docs(seed, n, bad=0.05, nmax=14, corpus_first=True):
     rng = random.Random(seed)
     out = []
     c = corpus()
-    fixed = (c + tab_opener_templates()) if corpus_first else []
+    fixed = (c + tab_opener_templates() + container_multiline_templates()) if corpus_first else []
     out.extend(fixed)
     while len(out) < n + len(fixed):
         r = rng.random()
@@ -330,6 +330,20 @@ def tab_opener_templates():
     openers = [b"- ", b"+ ", b"* ", b"-", b"1. ", b"9) ", b"12. ", b"1.", b"# ", b"## h #", b"> ", b">", b"```", b"~~~ x", b"---", b"* * *", b"<div>", b"[a]: /u", b"a\n===", b"    c"]
     rests = [b"foo\n", b"\n"]
     return [p + o + r for p in prefixes for o in openers for r in rests]
+
+
+def container_multiline_templates():
+    """container x inline (or definition) construct that crosses a line break x how the continuation line is indented
+    (tabs consumed partially by the container, spaces, nothing): where the multi-line reader meets Indent nodes"""
+    conts = {b"- ": [b"\t", b" \t", b"  \t", b"\t\t", b"  ", b"    ", b"   \t"],
+             b"1. ": [b"\t", b" \t", b"   \t", b"\t\t", b"   ", b"     "],
+             b"10. ": [b"\t", b"  \t", b"    ", b"\t "],
+             b"> ": [b"> ", b">", b">\t", b"> \t", b">  ", b"", b"   > "],
+             b">": [b">", b">\t", b"> "]}
+    pairs = [(b"[a](/u \"title", b"more\") z"), (b"x <a", b"href='y'> z"), (b"[foo]: /url 'title", b"more'\n\n[foo]"), (b"[a](/u", b"\"t\") z"),
+             (b"`co", b"de` z"), (b"[a][b", b"c] z\n\n[b c]: /u"), (b"<!-- x", b"y --> z"), (b"*a", b"b* z"), (b"[a](<u", b"v>) z"), (b"[a](/u 't&amp;", b"y') z"),
+             (b"[a](/u '", b"foo') z"), (b"[a]: /u \"x&quot;", b"y\"\n\n[a]"), (b"<b c=\"d", b"e\"> z"), (b"a\\", b"b"), (b"a  ", b"b")]
+    return [m + a + b"\n" + c + b2 + b"\n" for m, cs in conts.items() for c in cs for a, b2 in pairs]
 
 
 def final_newline_templates():
